@@ -89,3 +89,59 @@ def typecheckU (Γ : List BTy) : UTree → Option (TTree × BTy)
     | none => none
 
 end Octo.Logic
+
+/-! ### Comparisons of Int / NULL operands through `FunctionExpression.Typecheck` -/
+namespace Octo.Logic
+open Octo
+
+/-- operand types that occur: `Int`, `NULL`, `TypeSum(Int, NULL)` = the union `[NULL, Int]` -/
+inductive ITy where
+  | i | n | ni
+  deriving Repr, DecidableEq, Inhabited
+
+def ITy.toTy : ITy → Ty
+  | .i => .int
+  | .n => .null
+  | .ni => .union [.null, .int]
+
+def ITy.nullable : ITy → Bool
+  | .i => false
+  | _ => true
+
+/-- `octosql.NonNullable`: drops the NULL alternative of a union; a non-union (also plain `NULL`) is returned as is -/
+def ITy.nonNullable : ITy → ITy
+  | .ni => .i
+  | t => t
+
+inductive CmpOp where
+  | lt | le | eq | ne | ge | gt
+  deriving Repr, DecidableEq, Inhabited
+
+def CmpOp.name : CmpOp → List Nat
+  | .lt => nmLt | .le => nmLe | .eq => nmEq | .ne => nmNe | .ge => nmGe | .gt => nmGt
+
+def CmpOp.fn : CmpOp → List Value → Res
+  | .lt => fnLt | .le => fnLe | .eq => fnEq | .ne => fnNe | .ge => fnGe | .gt => fnGt
+
+/-- what the operator says about two non-NULL integers -/
+def CmpOp.holds : CmpOp → Int → Int → Bool
+  | .lt, a, b => decide (a < b)
+  | .le, a, b => decide (a ≤ b)
+  | .eq, a, b => decide (a = b)
+  | .ne, a, b => decide (a ≠ b)
+  | .ge, a, b => decide (a ≥ b)
+  | .gt, a, b => decide (a > b)
+
+/-- `FunctionExpression.Typecheck` for `l ⋈ r`; `none` = "unknown function".
+    All six descriptors are `Strict`, so the argument types are made `NonNullable` first.  `<`, `<=`, `>=`, `>` have a
+    `TypeFn` that demands `types[0].Equals(types[1])` (and the second, `Maybe` pass skips `TypeFn` descriptors because
+    their `ArgumentTypes` are empty); `=`, `!=` take `[Any, Any]`.  Output `Boolean`, plus NULL when an argument's
+    (original) type admits NULL. -/
+def typecheckCmp (op : CmpOp) (l r : ITy) : Option BTy :=
+  let found := match op with
+    | .eq => true
+    | .ne => true
+    | _ => l.nonNullable == r.nonNullable
+  if found then some (if l.nullable || r.nullable then .bn else .b) else none
+
+end Octo.Logic
